@@ -26,6 +26,23 @@ def judge_pair(st, x, y, src):
         return
     if rs:
         st.count('pairs_with_results')
+    if rs and src == 'inst':
+        # the same call with a seen-rule table that contains the pair: whatever comes back must be justified by its schema as well
+        try:
+            seen = {(x.clear_features('X', 'nb'), y.clear_features('X', 'nb'))} if 'en' == 'en' else {(x, y)}
+            rs_seen = en.apply_binary_rules(x, y, seen)
+        except Exception as e:
+            rs_seen = []
+            st.violation(f'raises/{src}/seen', f'apply_binary_rules({x}, {y}, seen_rules) raised {e!r}', x=str(x), y=str(y), engine=PROP.lower())
+        for r in rs_seen:
+            st.count('results_with_seen_rules')
+            try:
+                why = justified(x, y, r)
+            except Exception as e:
+                why = f'oracle error {e!r}'
+            if why:
+                st.violation(f'unjustified/seen_rules/{r.op_symbol}/{why}', f'with a seen-rule table: {x}  {y}  =>  {r.cat} [{r.op_string} {r.op_symbol} head_left={r.head_is_left}]: {why}',
+                             x=str(x), y=str(y), result=str(r.cat), label=r.op_string, symbol=r.op_symbol, why=why, engine=PROP.lower(), seen_rules=True)
     for r in rs:
         st.count('results')
         st.add('labels', (r.op_string, r.op_symbol))
